@@ -510,3 +510,79 @@ func (c *Ctx) ttIsStackKind() {
 		rep.bad("R-TT", "isStackKind", "type-level Stack test", pos, strings.Join(uniq(problems), "; "))
 	}
 }
+
+// ttGetState: the read-only test everything else relies on.  getState(cf)
+// answers the raw option bit of an initialised instance and false otherwise;
+// it depends on nothing else - in particular no user code (a validity closure)
+// is reachable from it, so no user closure can switch a guard off.
+func (c *Ctx) ttGetState() {
+	for _, recv := range []string{"Stack", "Condition"} {
+		name := recv + ".getState"
+		tb := ttTable{
+			rule: "R-TT", fn: name,
+			atoms: []ttAtom{
+				c.initAtom(),
+				c.atomCallBool("BIT(cf)", []string{"stack.positive", "(*condition).positive", "condition.positive", "nodeConfig.positive", "(*nodeConfig).positive", "cfgFlag.positive"}, nil),
+			},
+			feasible: func(v map[string]bool) bool { return !(v["BIT(cf)"] && !v["INIT"]) },
+			expect: func(v map[string]bool) string { return fmt.Sprint(v["INIT"] && v["BIT(cf)"]) },
+			outcome: c.boolOutcome(0),
+		}
+		c.runTable(tb)
+		fn := c.p.ByName[name]
+		if fn == nil {
+			continue
+		}
+		inReach := map[*ssa.Function]bool{}
+		for _, f := range c.reach(fn) {
+			inReach[f] = true
+		}
+		var user []string
+		for _, u := range c.eff.users {
+			if inReach[u.Fn] {
+				user = append(user, relName(u.Fn)+" "+c.p.instrPos(u.Instr)+": "+u.What)
+			}
+		}
+		sort.Strings(user)
+		if len(user) == 0 {
+			c.rep.ok("R-TT", name, "no user code", c.p.pos(fn.Pos()), "nothing reachable from the option test calls user code")
+		} else {
+			c.rep.bad("R-TT", name, "no user code", c.p.pos(fn.Pos()), "user code is reachable from the option test (a closure could make every guard that relies on it fail open): "+strings.Join(user, "; "))
+		}
+	}
+}
+
+// ttIsNestingWrappers: Stack.IsNesting answers its worker's verdict for every
+// initialised receiver, whatever the no-nesting option says (elements already
+// present are not affected by the switch); condition.isNesting is exactly
+// isStackKind of the expression (a zero-valued Stack counts: it is refused
+// under no-nesting, too).
+func (c *Ctx) ttIsNestingWrappers() {
+	c.runTable(ttTable{
+		rule: "R-TT", fn: "Stack.IsNesting",
+		atoms: []ttAtom{
+			c.initAtom(),
+			c.atomCallBool("scan", []string{"stack.isNesting", "(*stack).isNesting"}, nil),
+		},
+		feasible: func(v map[string]bool) bool { return !(v["scan"] && !v["INIT"]) },
+		expect:   func(v map[string]bool) string { return fmt.Sprint(v["INIT"] && v["scan"]) },
+		outcome:  c.boolOutcome(0),
+	})
+	c.runTable(ttTable{
+		rule: "R-TT", fn: "condition.isNesting",
+		atoms: []ttAtom{
+			{"isStackKind(ex)", func(fa *FnAnalysis, st *State) (bool, bool) {
+				for _, call := range c.findCalls(fa.fn, "isStackKind") {
+					if c.isFieldLoad(unMI(fa.term(st, call.Call.Args[0])), "condition.ex") {
+						if v, ok := fa.knownTerm(st, aTR, fa.term(st, call)); ok {
+							return v, true
+						}
+					}
+				}
+				return false, false
+			}},
+		},
+		expect:  func(v map[string]bool) string { return fmt.Sprint(v["isStackKind(ex)"]) },
+		outcome: c.boolOutcome(0),
+	})
+}
